@@ -55,7 +55,7 @@ def _set(attr, values):
     return (attr + "=", eff, same)
 
 
-def _dict_cat(prefix, keyf, valf):
+def _dict_cat(prefix, keyf, valf, newf=None, default=None):
     def set_eff(o, k):
         key = keyf(k)
         v = valf(k)
@@ -64,10 +64,12 @@ def _dict_cat(prefix, keyf, valf):
         o[key] = v
 
     def set_same(o):
-        if not len(o):
+        # (an item that holds None is assigned unconditionally by design - see BaseDictObject.__setitem__ - and is not
+        # a candidate for the silence clause)
+        keys = [key for key in sorted(o.keys(), key=repr) if o[key] is not None]
+        if not keys:
             return False
-        key = sorted(o.keys(), key=repr)[0]
-        o[key] = copy.deepcopy(o[key])
+        o[keys[0]] = copy.deepcopy(o[keys[0]])
         return True
 
     def del_eff(o, k):
@@ -96,8 +98,42 @@ def _dict_cat(prefix, keyf, valf):
         if keyf(k) in o and o[keyf(k)] == v:
             v = valf(k + 4)
         o.update({keyf(k): v})
-    return [(prefix + "__setitem__", set_eff, set_same), (prefix + "__delitem__", del_eff, None),
-            (prefix + "clear", clear_eff, clear_same), (prefix + "update", update_eff, None)]
+    def new_key(o, k):
+        key = newf(k)
+        while key in o:
+            k += 1000
+            key = newf(k)
+        return key
+
+    # a NEW key that carries the value `get()` answers for a key that is missing (None; 0 for kerning): the mapping
+    # does change - it holds one key more - although a comparison with `get(key)` would say that nothing does
+    def new_default_update(o, k):
+        o.update({new_key(o, k): default})
+
+    def new_default_ior(o, k):
+        o |= {new_key(o, k): default}
+
+    def new_default_set(o, k):
+        o[new_key(o, k)] = default
+    res = [(prefix + "__setitem__", set_eff, set_same), (prefix + "__delitem__", del_eff, None),
+           (prefix + "clear", clear_eff, clear_same), (prefix + "update", update_eff, None)]
+    if newf is not None:
+        res += [(prefix + "update[new key, default value]", new_default_update, None),
+                (prefix + "|=[new key, default value]", new_default_ior, None),
+                (prefix + "__setitem__[new key, default value]", new_default_set, None)]
+    return res
+
+
+def _update_absent_key(keys, fallback):
+    """dict-like leaf objects (anchor, guideline): `update` with one of their own keys that is not stored yet, holding
+    None - what reading the attribute answers already; the object holds one key more afterwards"""
+    def eff(o, k):
+        for key in keys:
+            if key not in o:
+                o.update({key: None})
+                return None
+        return fallback(o, k)
+    return eff
 
 
 _CTX = {"tree": None}     # the tree of the running case (which object is the newest child of a container)
@@ -453,18 +489,21 @@ CATALOGUE = {
         ("move", _do(lambda c, k: c.move((1 + k, 1))), None),
     ],
     "anchor": [_set("x", [1, 2, 3, 4]), _set("y", [5, 6, 7]), _set("name", [None, "top", "bottom"]), _set("color", [None] + COLORS),
-               ("color=spelled", None, _color_same_spelled), ("move", _do(lambda a, k: a.move((1 + k, 1))), None)],
+               ("color=spelled", None, _color_same_spelled), ("move", _do(lambda a, k: a.move((1 + k, 1))), None),
+               ("update[new key, default value]", _update_absent_key(["name", "color", "identifier"], lambda a, k: (a.move((2 + k, 1)), "move")[1]), None)],
     "guideline": [_set("x", [11, 12, 13]), _set("name", [None, "ga", "gb"]), _set("color", [None] + COLORS),
-                  ("color=spelled", None, _color_same_spelled)],
+                  ("color=spelled", None, _color_same_spelled),
+                  ("update[new key, default value]", _update_absent_key(["y", "angle", "color", "identifier"],
+                                                                        lambda g, k: (setattr(g, "x", (g.x or 0) + 17 + k), "x=")[1]), None)],
     "image": [_set("fileName", ["img0.png", "img1.png", "img2.png"]), _set("color", [None] + COLORS),
               ("transformation=", _do(lambda i, k: setattr(i, "transformation", (1, 0, 0, 1, 30 + k, 0))),
                lambda i: (setattr(i, "transformation", tuple(i.transformation)) or True)),
               ("move", _do(lambda i, k: i.move((1 + k, 2))), None)],
-    "lib": _dict_cat("", lambda k: "com.k%d" % (k % 4), lambda k: {"v": k}),
+    "lib": _dict_cat("", lambda k: "com.k%d" % (k % 4), lambda k: {"v": k}, newf=lambda k: "com.new%d" % k),
     "info": [_set("familyName", ["A", "B", "C"]), _set("unitsPerEm", [1000, 2048, 512]), _set("ascender", [700, 750, 800]),
              _set("openTypeOS2WeightClass", [400, 500, 700]), _set("postscriptBlueValues", [[], [0, 10], [-10, 0, 500, 510]])],
-    "kerning": _dict_cat("", lambda k: ("A", "kr%d" % (k % 4)), lambda k: -10 - k),
-    "groups": _dict_cat("", lambda k: "grp%d" % (k % 4), lambda k: ["A", "g%d" % k]),
+    "kerning": _dict_cat("", lambda k: ("A", "kr%d" % (k % 4)), lambda k: -10 - k, newf=lambda k: ("A", "nk%d" % k), default=0),
+    "groups": _dict_cat("", lambda k: "grp%d" % (k % 4), lambda k: ["A", "g%d" % k], newf=lambda k: "ngrp%d" % k),
     "features": [_set("text", ["# a\n", "# b\n", "# c\n"])],
     "images": [("__setitem__", _do(lambda s, k: s.__setitem__("i%d.png" % (k % 3), fg.png_bytes(20 + k))),
                 lambda s: bool(s.fileNames) and (s.__setitem__(sorted(s.fileNames)[0], s[sorted(s.fileNames)[0]]) or True)),
@@ -473,6 +512,32 @@ CATALOGUE = {
     "data": [("__setitem__", _do(lambda s, k: s.__setitem__("f%d.txt" % (k % 3), fg.data_bytes(20 + k))), None),
              ("__delitem__", _do(lambda s, k: s.__setitem__("d%d.txt" % k, fg.data_bytes(40 + k)), lambda s, k: s.__delitem__("d%d.txt" % k)), None)],
 }
+
+def _poison_anchor(g, k):
+    g.appendAnchor(dict(x=None, y=None, name="unwritable"))
+    return "appendAnchor"
+
+
+def _poison_lib(o, k):
+    o["com.unwritable"] = {1, 2}          # no property list can hold a set: writing the lib raises
+    return "__setitem__"
+
+
+def _unpoison_lib(o, k):
+    if "com.unwritable" in o:
+        del o["com.unwritable"]
+        return "__delitem__"
+    o["com.k0"] = {"v": 5000 + k}
+    return "__setitem__"
+
+
+# entries a history names explicitly (never drawn at random): content no writer accepts, so that a save fails while
+# the layers are written, and its removal.  Each is a catalogued mutator with particular data.
+SCRIPTED = {
+    "glyph": {"appendAnchor[no coordinates]": _poison_anchor},
+    "lib": {"__setitem__[unwritable value]": _poison_lib, "__delitem__[unwritable value]": _unpoison_lib},
+}
+
 
 # the names an entry can be recorded under besides its own (decided before the call, see _margin / _contour_op)
 VARIANTS = {"glyph": ["bottomMargin=[no vertical origin]"], "layer": ["__delitem__[glyph order unchanged]"]}
@@ -805,7 +870,7 @@ def _extract_facts(repo):
         # (an inherited method that reaches nothing - addObserver, getRepresentation … - is left out; one the class
         # defines itself is listed even when it reaches nothing: that is a decided fact)
         for name in sorted(funcs):
-            if not name.startswith("_") or name in ("__setitem__", "__delitem__"):
+            if not name.startswith("_") or name in ("__setitem__", "__delitem__", "__ior__"):
                 if reach[name] or name not in inherited:
                     facts[(kind, name)] = (sorted(reach[name]), guard[name])
         for prop, sname in sorted(setters.items()):
@@ -1031,7 +1096,9 @@ def gen_case(rng, maxops):
         r = rng.random()
         kind = rng.choice(KINDS)
         pick = rng.randrange(1000)
-        if r < 0.55:
+        if r < 0.03:
+            ops.append(["save", "font", 0])         # (skipped while something is held)
+        elif r < 0.55:
             ops.append(["touch", kind, pick, rng.randrange(1000)])
         elif r < 0.72:
             ops.append(["same", kind, pick, rng.randrange(1000)])
@@ -1067,6 +1134,24 @@ def gen_case(rng, maxops):
         ops.append(["release"] + h)
     if oheld:
         ops.append(["orelease", "font", 0])
+    # a save that FAILS while the layers are written (content no writer accepts), the content is taken out again, the
+    # font is edited further and saved: what a failed save leaves behind must not cut later changes off
+    if rng.random() < 0.3:
+        gp = rng.randrange(1000)
+        how = rng.choice(["anchor", "anchor", "layer lib", "some lib"])
+        if how == "anchor":
+            poison = [["touch", "glyph", gp, "appendAnchor[no coordinates]"]]
+            cure = [["touch", "glyph", gp, "removeAnchor"]]
+        else:
+            lp = 0 if how == "layer lib" else rng.randrange(1000)
+            poison = [["touch", "lib", lp, "__setitem__[unwritable value]"]]
+            cure = [["touch", "lib", lp, "__delitem__[unwritable value]"]]
+        after = [["touch", rng.choice(["glyph", "glyph", "contour", "anchor", "lib", "layer"]), gp if rng.random() < 0.6 else rng.randrange(1000),
+                  rng.randrange(1000)] for _ in range(rng.randint(1, 3))]
+        ops += poison + [["save", "font", 0]] + cure + [["touch", "glyph", gp, rng.randrange(1000)]]
+        if rng.random() < 0.6:
+            ops += [["save", "font", 0]]
+        ops += after
     return dict(spec=spec, origin=origin, ops=ops, watcher=watcher)
 
 
@@ -1182,6 +1267,10 @@ def run(case, want_lines):
         lines.append([Atom("init"), [[i, (-1 if p is None else p), Atom(k)] for i, (o, k, p) in enumerate(tree.nodes)], init_dirty])
         outs.append(Atom("ok"))
         holds = {}
+
+        def active_holds():
+            # (a hold on an object that a mutator has taken out of the font holds nothing back inside the font)
+            return any(n and tree.attached(j) for j, n in holds.items())
         touched_since = []     # (node, log index) of effective changes whose propagation is still owed
         deep = False
         for step, op in enumerate(case["ops"]):
@@ -1196,6 +1285,28 @@ def run(case, want_lines):
             wbefore = watcher.snapshot() if watcher is not None else set()
             nnodes = len(tree.nodes)
             line = [Atom("nop")]
+            if op[0] == "save":
+                # the font is written (in place; a font that has no place yet gets one).  What a save does to the flags is
+                # C06's subject: the model is told the flags afterwards, as it is told the initial ones.  What matters here
+                # is what follows: a save - failed ones included - must not cut later changes off.
+                if active_holds() or oheld_at is not None:
+                    outs.append([Atom("skip")])
+                    lines.append([Atom("skip")])
+                    continue
+                ok = True
+                try:
+                    font.save(font.path or os.path.join(tmpd, "m.ufo"))
+                except Exception as e:
+                    # (the catalogue's data are not all writable - a lib item that holds None, a guideline with x and y
+                    # but no angle … - and SCRIPTED adds content no writer accepts: a failing save is an outcome, not a finding)
+                    ok = False
+                    stats["save.failed.%s" % type(e).__name__] = stats.get("save.failed.%s" % type(e).__name__, 0) + 1
+                tree.refresh()
+                d = sorted(_dirty_set(tree))
+                stats["save." + ("ok" if ok else "failed")] = stats.get("save." + ("ok" if ok else "failed"), 0) + 1
+                lines.append([Atom("save"), Atom("ok" if ok else "failed"), d])
+                outs.append([[Atom("saved"), Atom("ok" if ok else "failed")], [Atom("dirty"), [Atom("set")] + d]])
+                continue
             if i is None:
                 outs.append([Atom("skip")])
                 lines.append([Atom("skip")])
@@ -1207,11 +1318,14 @@ def run(case, want_lines):
                     cands = [e for e in entries if e[1] is not None]
                 else:
                     cands = [e for e in entries if e[2] is not None]
+                if isinstance(op[3], str):
+                    # an entry the history names (SCRIPTED, or a catalogue entry by its name)
+                    cands = [(op[3], SCRIPTED[kind][op[3]], None)] if op[3] in SCRIPTED.get(kind, {}) else [e for e in cands if e[0] == op[3]]
                 if not cands:
                     outs.append([Atom("skip")])
                     lines.append([Atom("skip")])
                     continue
-                name, eff, same = cands[op[3] % len(cands)]
+                name, eff, same = cands[(op[3] if isinstance(op[3], int) else 0) % len(cands)]
                 applied = True
                 try:
                     if op[0] == "touch":
@@ -1238,7 +1352,7 @@ def run(case, want_lines):
             elif op[0] in ("ohold", "orelease"):
                 # (observer-scoped and object-scoped brackets are not nested into each other: what a release re-posts into
                 # another hold is the notification centre's business, C04)
-                if watcher is None or (op[0] == "ohold") == (oheld_at is not None) or (op[0] == "ohold" and any(holds.values())):
+                if watcher is None or (op[0] == "ohold") == (oheld_at is not None) or (op[0] == "ohold" and active_holds()):
                     outs.append([Atom("skip")])
                     lines.append([Atom("skip")])
                     continue
@@ -1357,7 +1471,7 @@ def run(case, want_lines):
                     viol.append(dict(clause="C02/changed-object-not-dirty", signature="C02/changed-object-not-dirty/%s.%s" % (kind, name),
                                      step=step))
                 touched_since.append((i, mark, kind, name))
-            if not any(holds.values()):
+            if not active_holds():
                 # nothing held anywhere: every owed propagation must be complete now
                 for (t, m, tk, tn) in touched_since:
                     if not tree.attached(t):
